@@ -101,7 +101,7 @@ def check_planar(case):
     out = []
     for tag, f in (("v1", t1), ("v2", lambda *a: float(t2(*a)))):
         r = f(*pts)
-        if angdiff(r, want) > 1e-6:
+        if not angdiff(r, want) <= 1e-6:  # NaN is a failure too
             out.append(f"torsion-{tag}:planar {name}: got {r}, expected {want} for exactly coplanar points {[tuple(p) for p in pts]}")
     return out
 
